@@ -117,10 +117,22 @@ func genC15(r *rand.Rand, run int, _ string) *Scenario {
 		nk = len(ix.Keys)
 	}
 
+	collide := chance(r, 0.1)
+	if collide {
+		// two distinct keys with one xxhash64 sum (constructed), held by caches that can hold both (SyncMap):
+		// for the index they are two keys like any others
+		cf := collisionFamily(r, 2)
+		ix.Keys = []string{string(cf[0]), string(cf[1]), "key2"}
+		nk = len(ix.Keys)
+	}
+
 	for _, n := range names {
 		nd := 1 + r.IntN(3)
 		for d := 0; d < nd; d++ {
 			c := IndexCache{Name: n, Backend: pick(r, "sharded", "syncmap", "shardedOf")}
+			if collide {
+				c.Backend = "syncmap"
+			}
 
 			for k := 0; k < nk; k++ {
 				if chance(r, 0.7) {
